@@ -6,7 +6,9 @@ import vlib
 TARGETS = ["Base/Num.vo", "C14/ER.vo", "C14/Model.vo", "C14/Spec.vo", "C14/ProofsER.vo", "C14/Corr.vo",
            "C14/SModel.vo", "C14/ProofsHist.vo", "C14/CorrH.vo",
            "C14/ProofsCont.vo", "C14/ProofsDisc.vo", "C14/ProofsNorm.vo", "C14/ProofsCdf.vo", "C14/ProofsCdf2.vo", "C14/ProofsNorm2.vo",
-           "C14/ProofsRegress.vo", "C14/VModel.vo", "C14/ProofsVec.vo", "C14/Props.vo"]
+           "C14/ProofsRegress.vo", "C14/VModel.vo", "C14/ProofsVec.vo",
+           "C14/MixModel.vo", "C14/ProofsMix.vo", "C14/SkewModel.vo", "C14/ProofsSkew.vo", "C14/IWModel.vo", "C14/ProofsIW.vo",
+           "C14/Corr2.vo", "C14/ProofsCdf3.vo", "C14/Props.vo"]
 PROPS = ["C14/Props.v"]
 PARTIAL = ("Theorems are over exact real arithmetic extended by +Inf/-Inf/NaN (coq/C14/ER.v); rounding, overflow and "
            "signed zeros of binary64 are not modelled; the step to binary64 is bounded per sampled case by the "
@@ -15,8 +17,13 @@ PARTIAL = ("Theorems are over exact real arithmetic extended by +Inf/-Inf/NaN (c
            "business); normalisation is proved for the exponential, Pareto, power-law and geometric families (Laplace: "
            "limits of the cdf), not for the Gamma/Beta-normalised ones. Vector families (t, normal, ScalarIid, ScalarId) "
            "are modelled with the inverse and determinant of Sigma entering as logged data (SigmaInv / SigmaDet fields; "
-           "matrixInverse / determinant are other properties' business); skew-normal, the matrix families and the "
-           "mixture wrapper are not modelled. Derivative slots are checked only by the hunt (central differences). "
+           "matrixInverse / determinant are other properties' business); the same holds for the skew normal (kappa = "
+           "diag(s) omega diag(s): Normal1.SigmaInv / SigmaDet; Phi through the Section hypotheses lerfc = ln erfc, erfc > 0), "
+           "the inverse Wishart and the normal-inverse-Wishart (|S|, X^-1, |X|, inverse / determinant of sigma/kappa and "
+           "special.Mlgamma are logged; tie for dimensions 1..3, theorems for every dimension; a matrix that is not positive "
+           "definite is represented by a logged determinant <= 0). Mixtures: generic.Mixture with the components' own "
+           "LogPdf values as logged data (scalar wrapper and vector wrapper over ScalarIid components); the matrix "
+           "mixture wrapper, mixture SetParameters / ImportConfig and the HMM types are not modelled. Derivative slots are checked only by the hunt (central differences). "
            "Cache coherence over mutator histories (SModel.v) is proved for the 18 scalar families; the state model is "
            "functional (one object): storage shared between an object and its clone / its caller's vectors is outside "
            "it and covered by the hunt only (copies set aside at a Clone, scribbling on argument / returned vectors); "
@@ -43,7 +50,7 @@ def match_known(fail, findings):
         fams = fams if isinstance(fams, list) else [fams]
         if fail["fam"] not in fams or fail["kind"] not in m.get("kinds", []):
             continue
-        env = {"ps": fail["p"].get("ps") or [], "zs": fail["p"].get("zs") or [], "x": fail["x"], "v": fail.get("v") or {},
+        env = {"ps": fail["p"].get("ps") or [], "zs": fail["p"].get("zs") or [], "x": fail["x"], "v": fail.get("v") or {}, "w": fail.get("w") or {},
                "ops": [o.get("k") for o in (fail.get("ops") or [])], "exp": fail.get("expected") or "",
                "fam": fail["fam"], "abs": abs, "sum": sum, "True": True, "False": False}
         try:
@@ -170,15 +177,17 @@ def run(ctx):
     ctx.cov["partial"] = PARTIAL
     ok, failures = vlib.proof_stage(ctx, TARGETS, PROPS)
     thms = vlib.theorem_names(os.path.join(vlib.COQ, "C14/Props.v"))
+    pa_pool, pa_futs = None, []
     if ok:
-        pa = vlib.print_assumptions("C14", [("C14.Props", thms)], ctx.dir)
-        names = sorted({n for v in pa.values() for n in re.findall(r"([A-Za-z0-9_.']+) : ", v)
-                        if "." in n and not n.startswith(("BinNums", "BinInt"))})
-        closed = sum(1 for v in pa.values() if v.startswith("Closed"))
-        ctx.cov["print_assumptions"] = {
-            "theorems": len(pa), "closed_under_global_context": closed, "axioms_used": names,
-            "note": "formula/support/ctor/norm/cdf theorems: standard Reals + classical axioms only; the *_regress "
-                    "lemmas are proved with Coq-Interval and additionally list its primitive int63/float axioms"}
+        # Print Assumptions of ~100 theorems costs ~100 s in one process (each call walks the Coquelicot / Interval
+        # closure): chunks run in parallel processes, in the background of the correspondence
+        k = 10
+        pa_pool = cf.ThreadPoolExecutor(max_workers=k)
+        for i in range(k):
+            chunk = thms[i::k]
+            if chunk:
+                pa_futs.append(pa_pool.submit(vlib.print_assumptions, "C14_%d" % i, [("C14.Props", chunk)],
+                                              os.path.join(ctx.dir, "assumptions")))
     binary, blog = vlib.build_harness("c14")
     if binary is None:
         ctx.violation({"obligation": "build of harness/c14 against the library", "log": blog[-3000:]}, False,
@@ -189,6 +198,20 @@ def run(ctx):
     bad, incons = corr(ctx, binary, n)
     h = hunt(ctx, binary, bad + incons)
     ctx.cov["hunt"] = {"tried": h.get("tried"), "failures": len(h.get("failures", []))}
+    if pa_futs:
+        pa = {}
+        for fu in pa_futs:
+            pa.update(fu.result())
+        pa_pool.shutdown()
+        names = sorted({n for v in pa.values() for n in re.findall(r"([A-Za-z0-9_.']+) : ", v)
+                        if "." in n and not n.startswith(("BinNums", "BinInt"))})
+        closed = sum(1 for v in pa.values() if v.startswith("Closed"))
+        ctx.cov["print_assumptions"] = {
+            "theorems": len([k for k in pa if k != "_error"]), "closed_under_global_context": closed, "axioms_used": names,
+            "note": "formula/support/ctor/norm/cdf theorems: standard Reals + classical axioms only; the *_regress "
+                    "lemmas are proved with Coq-Interval and additionally list its primitive int63/float axioms"}
+        if "_error" in pa:
+            ctx.cov["print_assumptions"]["error"] = pa["_error"][-500:]
     findings = proposed_findings()
     unknown, hit = [], {}
     for f in h.get("failures", []):
@@ -205,15 +228,17 @@ def run(ctx):
         if key in reported:
             continue
         reported.add(key)
-        case = {"fam": f["fam"], "fn": f["fn"] if f["fn"] in ("LogPdf", "LogCdf", "Cdf") else "LogPdf",
+        case = {"fam": f["fam"], "fn": f["fn"] if f["fn"] in ("LogPdf", "LogCdf", "Cdf", "Posterior", "Likelihood", "LogWeights") else "LogPdf",
                 "p": f["p"], "x": f["x"], "v": f.get("v")}
+        if f.get("w") is not None:
+            case["w"] = f["w"]
         if f.get("ops") is not None:
             case["ops"] = f["ops"]      # mutator history between the constructor and the method
         ctx.violation({"case": case, "failure": f,
                        "broken": [x["target"] for x in failures] + (["correspondence C14.Corr"] if bad else [])},
                       True, "%s %s: %s of %s at x=%s with parameters %s: observed %s, expected %s" % (
                           f["fam"], f["kind"], f["fn"], f["fam"], (f.get("v") or {}).get("x", f["x"]),
-                          f.get("v") or f["p"], f["observed"], f["expected"]))
+                          f.get("v") or f.get("w") or f["p"], f["observed"], f["expected"]))
     if inv_diffs and not unknown:
         ctx.violation({"obligation": "C14 mutator inventory (corpus/C14/mutators.json)", "differences": inv_diffs[:20]}, False,
                       "tie lost: the exported mutators of the distribution types differ from the ones the state model covers: "
